@@ -49,6 +49,10 @@ def build(P):
             # a session that only overwrites (nothing appended): the new value must be what a later session reads
             P1 += list(reset) + ["SEEK \"r.dat\", %d" % at, "PUTRECORD \"r.dat\", %s" % var, "CLOSEFILE \"r.dat\""] + list(sets)
             P1 += ["OPENFILE \"r.dat\" FOR RANDOM", "SEEK \"r.dat\", %d" % at, "GETRECORD \"r.dat\", %s" % var] + [d.replace("@", "overwritten ") for d in dump] + ["CLOSEFILE \"r.dat\""]
+            # a later session that ONLY appends (the value as record 4, a filler as record 5): a still later session must find both, and the old records
+            P1 += ["OPENFILE \"r.dat\" FOR RANDOM", "SEEK \"r.dat\", 4", "PUTRECORD \"r.dat\", %s" % var, "SEEK \"r.dat\", 5", "PUTRECORD \"r.dat\", filler", "CLOSEFILE \"r.dat\""] + list(reset)
+            P1 += ["OPENFILE \"r.dat\" FOR RANDOM", "SEEK \"r.dat\", 4", "GETRECORD \"r.dat\", %s" % var] + [d.replace("@", "appended ") for d in dump]
+            P1 += ["filler <- 0", "SEEK \"r.dat\", 5", "GETRECORD \"r.dat\", filler", "OUTPUT \"appended filler \", filler"] + list(reset) + ["SEEK \"r.dat\", %d" % at, "GETRECORD \"r.dat\", %s" % var] + [d.replace("@", "old ") for d in dump] + ["CLOSEFILE \"r.dat\""]
             progs.append(Case(id=cid, prog=("\n".join(P1) + "\n").encode(), meta=dict(units=[unit], second=dict(decls=decls, reset=reset, var=var, dump=dump, at=at))))
         # all 256 CHAR codes: alone, first / middle / last field of a record
         for code in range(256):
@@ -288,6 +292,67 @@ def build(P):
             cases.append(Case(id="C14-load-%d" % i, prog=("\n".join(L) + "\n").encode(), files={"p.dat": ("f", content)}, meta=dict(units=["load%d" % i], expect_out=exp)))
         yield ("restart-load", cases)
 
+        # typed histories: the same alphabet with records of every other type (the adversarial CHAR codes, REALs that need 17 digits, INTEGER, DATE, BOOLEAN, an enum,
+        # a record with CHAR / REAL / STRING members), each ending with close + reopen + a read of every record; and sessions that ONLY append to an existing file
+        TYPED = {
+            "CHAR": ("CHAR", ["CHR(10)", "'#'", "' '", "'A'", "CHR(0)", "CHR(255)", "CHR(13)", "CHR(34)"], lambda w: "ASC(%s)" % w),
+            "REAL": ("REAL", ["0.1 + 0.2", "1.0 / 3.0", "2.5", "1e22 / 3.0", "0.1 * 3.0", "123456789.123456789", "- 1.0 / 7.0", "5e-324 * 1.0"], lambda w: "%s, \" \", (%s - 0.3) * 1e17, \" \", %s = 0.1 + 0.2, \" \", %s = 1.0 / 3.0" % (w, w, w, w)),
+            "INTEGER": ("INTEGER", ["0", "- 1", "9223372036854775807", "- 9223372036854775807 - 1", "42"], lambda w: w),
+            "DATE": ("DATE", ["1/1/2000", "29/2/2024", "31/12/9999", "1/1/1"], lambda w: "%s, \" \", DAYINDEX(%s)" % (w, w)),
+            "BOOLEAN": ("BOOLEAN", ["TRUE", "FALSE"], lambda w: w),
+            "Hue": ("Hue", ["Crimson", "Amber", "Teal"], lambda w: w),
+            "Mix": ("Mix", None, lambda w: "ASC(%s.c), \" \", %s.x = 0.1 + 0.2, \" [\", %s.s, \"] \", %s.a[1], %s.a[2]" % (w, w, w, w, w)),
+        }
+        cases = []
+        for i in range(sizes(tier, 160, 3000)):
+            rr = rng_for(seed, "C14t", i)
+            tname = rr.choice(sorted(TYPED))
+            ty, pays, show = TYPED[tname]
+            ents = ["TYPE Hue = (Crimson, Amber, Teal)", "TYPE Mix\nDECLARE c : CHAR\nDECLARE x : REAL\nDECLARE s : STRING\nDECLARE a : ARRAY[1:2] OF CHAR\nENDTYPE", "DECLARE v, w : %s" % ty, "OPENFILE \"t.dat\" FOR RANDOM"]
+            nrec = 0
+            def setv():
+                if tname == "Mix":
+                    return ["v.c <- %s" % rr.choice(TYPED["CHAR"][1]), "v.x <- %s" % rr.choice(TYPED["REAL"][1]), "v.s <- %s" % rr.choice(payloads), "v.a[1] <- %s" % rr.choice(TYPED["CHAR"][1]), "v.a[2] <- %s" % rr.choice(TYPED["CHAR"][1])]
+                return ["v <- %s" % rr.choice(pays)]
+            for step in range(rr.randint(4, 25)):
+                op = rr.choice(["seek", "put", "put", "get", "reopen"])
+                if op == "seek": ents.append("SEEK \"t.dat\", %d" % rr.randint(0, nrec + 2))
+                elif op == "put": ents += setv() + ["PUTRECORD \"t.dat\", v"]; nrec += 1
+                elif op == "get": ents += ["GETRECORD \"t.dat\", w", "OUTPUT \"got \", " + show("w")]
+                else: ents += ["CLOSEFILE \"t.dat\"", "OPENFILE \"t.dat\" FOR RANDOM"]
+            ents += ["CLOSEFILE \"t.dat\"", "OPENFILE \"t.dat\" FOR RANDOM"]
+            for k in range(1, nrec + 2):
+                ents += ["SEEK \"t.dat\", %d" % k, "GETRECORD \"t.dat\", w", "OUTPUT \"rec %d \", " % k + show("w")]
+            ents.append("CLOSEFILE \"t.dat\"")
+            cases.append(repl_case("C14-typed-%d" % i, ents, meta=dict(units=["t%d" % i], noshrink=True)))
+        for ch in chunks(cases, 200):
+            yield ("typed-histories", ch)
+        cases = []
+        k_ = 0
+        for tname in ["STRING", "INTEGER", "CHAR"]:
+            lit = {"STRING": lambda n: '"r%d" & CHR(10) & "x"' % n if n % 2 else '"r%d"' % n, "INTEGER": lambda n: str(100 + n), "CHAR": lambda n: "CHR(%d)" % (65 + n)}[tname]
+            show = (lambda w: "ASC(%s)" % w) if tname == "CHAR" else (lambda w: "\"[\", %s, \"]\"" % w)
+            for existing in range(0, 4):
+                for sessions in range(1, 4):
+                    for per in (1, 2):
+                        k_ += 1
+                        ents = ["DECLARE v, w : %s" % tname, "OPENFILE \"ap.dat\" FOR RANDOM"]
+                        n = 0
+                        for e in range(existing):
+                            n += 1; ents += ["v <- %s" % lit(n), "PUTRECORD \"ap.dat\", v", "SEEK \"ap.dat\", %d" % (n + 1)]
+                        ents.append("CLOSEFILE \"ap.dat\"")
+                        for s_ in range(sessions):
+                            ents.append("OPENFILE \"ap.dat\" FOR RANDOM")
+                            for a in range(per):
+                                n += 1; ents += ["SEEK \"ap.dat\", %d" % n, "v <- %s" % lit(n), "PUTRECORD \"ap.dat\", v"]
+                            ents += ["SEEK \"ap.dat\", %d" % n, "GETRECORD \"ap.dat\", w", "OUTPUT \"session \", " + show("w"), "CLOSEFILE \"ap.dat\""]
+                        ents.append("OPENFILE \"ap.dat\" FOR RANDOM")
+                        for k in range(1, n + 2):
+                            ents += ["SEEK \"ap.dat\", %d" % k, "GETRECORD \"ap.dat\", w", "OUTPUT \"rec %d \", " % k + show("w")]
+                        ents.append("CLOSEFILE \"ap.dat\"")
+                        cases.append(repl_case("C14-append-%d" % k_, ents, meta=dict(units=["ap%d" % k_], noshrink=True)))
+        yield ("append-only-sessions", cases)
+
     def eval_payload(p):
         out = ""
         for part in p.split(" & "):
@@ -516,10 +581,24 @@ def build(P):
             ("filename-type", "OPENFILE 5 FOR READ", {}, "error"), ("close-type", "CLOSEFILE TRUE", {}, "error"),
         ]
         yield ("fault-sequences", [Case(id="C16-fault-" + n, prog=(p + "\n").encode(), files=dict(fl), meta=dict(units=[n], fault=exp)) for n, p, fl, exp in faults])
+        # everything written reaches the file system, whatever its type: values that need every digit / every byte, written with WRITEFILE and PUTRECORD, the handle closed,
+        # left open at a normal end, or left open at a runtime error; the final file bytes are compared with the model's, and a read-back in the same program must give the kept value
+        vals = [("REAL", "0.1 + 0.2"), ("REAL", "1.0 / 3.0"), ("REAL", "1e22 / 3.0"), ("REAL", "123456789.123456789"), ("REAL", "100.0"), ("INTEGER", "9223372036854775807"), ("INTEGER", "- 9223372036854775807 - 1"),
+                ("CHAR", "CHR(10)"), ("CHAR", "'#'"), ("STRING", '"two" & CHR(10) & "#lines"'), ("STRING", '""'), ("DATE", "29/2/2024"), ("BOOLEAN", "TRUE")]
+        wt = []
+        for k, (ty, e) in enumerate(vals):
+            for ending in ("close", "end", "error"):
+                tail = {"close": ["CLOSEFILE \"w.dat\"", "CLOSEFILE \"w.txt\"", "OPENFILE \"w.dat\" FOR RANDOM", "GETRECORD \"w.dat\", y", "OUTPUT \"same \", x = y", "CLOSEFILE \"w.dat\""], "end": ["OUTPUT \"end\""], "error": ["OUTPUT 1 DIV 0"]}[ending]
+                L = ["DECLARE x, y : %s" % ty, "x <- %s" % e, "OPENFILE \"w.dat\" FOR RANDOM", "PUTRECORD \"w.dat\", x", "SEEK \"w.dat\", 2", "PUTRECORD \"w.dat\", x", "OPENFILE \"w.txt\" FOR WRITE", "WRITEFILE \"w.txt\", x", "WRITEFILE \"w.txt\", \"|\""] + tail
+                wt.append(Case(id="C16-typed-%d-%s" % (k, ending), prog=("\n".join(L) + "\n").encode(), meta=dict(units=["typed/%d/%s" % (k, ending)], typed=ending)))
+        yield ("typed-write-through", wt)
 
     def c16_oracle(c, r, m):
         import core
         msgs = []
+        if c.meta.get("typed") == "close":
+            if b"same TRUE" not in r.out and r.exit == 0: msgs.append("a value written with PUTRECORD and the handle closed did not read back as written: %r" % r.out[-60:])
+            return msgs
         f = c.meta.get("fault", "absent")
         if f != "absent":
             if f in ("open-error", "write-error", "error"):
